@@ -58,6 +58,8 @@ static void make_pass(PassWorld &pw, World &w) {
   }
   p->m_cols = pw.cols; p->m_startStates = pw.starts; p->m_transitions = pw.trans; p->m_states = pw.states; p->m_rules = pw.rules; p->m_ruleMap = pw.map;
   pw.pass = p;
+  // the pass and all its tables belong to the shared face (frozen-world lemmas, C08/C09)
+  vh_freeze(p); vh_freeze(pw.cols); vh_freeze(pw.starts); vh_freeze(pw.trans); vh_freeze(pw.rules); vh_freeze(pw.map); vh_freeze(pw.states);
 }
 
 // ---- Pass::runFSM == reference walk over the tables; candidate rules == sorted union of the rules of the success states visited
@@ -222,3 +224,31 @@ VH_ENTRY vh_rule_loop() {
   VH_END();
 }
 #endif
+
+// ---- Pass::testConstraint on a rule without constraint code (the common case): the answer depends only on whether the rule's context fits the
+// slot map, and (frozen-world lemma, C08/C09) testing it writes nothing into the pass, its rules or their code objects - they belong to the face
+VH_ENTRY vh_test_constraint() {
+  World w; vh_make_face(w); vh_make_segment(w);
+  ASSUME(inv_stream(w));
+  for (unsigned i = 0; i < NS; ++i) ASSUME(w.sl[i]->m_glyphid <= NFG);
+  PassWorld pw; make_pass(pw, w);
+  Machine::Code *codes = vh_new<Machine::Code>(2 * NRULES);
+  memset((void *)codes, 0, sizeof(Machine::Code) * 2 * NRULES);               // Code(): no program, status loaded, nothing owned
+  for (unsigned r = 0; r < NRULES; ++r) { pw.rules[r].action = &codes[2 * r]; pw.rules[r].constraint = &codes[2 * r + 1]; codes[2 * r + 1]._constraint = true; }
+  vh_freeze(codes);
+  SlotMap smap(*w.seg, 0, 8);
+  FiniteStateMachine fsm(smap, 0);
+  Machine m(smap);
+  bool ok = pw.pass->runFSM(fsm, w.sl[WSTART]);
+  if (ok) {
+    uint8_t k = nondet_u8(); ASSUME(k < NRULES);
+    const Rule &r = pw.rules[k];
+    bool t = pw.pass->testConstraint(r, m);
+    const int ctx = smap.context();
+    bool fits = !((unsigned)(r.sort + ctx - r.preContext) > smap.size() || ctx - r.preContext < 0);
+    bool ref = fits && smap[(int)r.sort - 1 - (int)r.preContext] != 0;
+    ASSERT(t == ref, "no constraint code: the rule is applicable exactly when its context fits the slot map and its last slot exists");
+    ASSERT(codes[2 * k + 1]._own == false && codes[2 * k + 1]._code == 0, "the rule's code object is untouched");
+  }
+  VH_END();
+}
